@@ -10,6 +10,11 @@
 //   E <type> <id> <svc> <meth> <req> <resp> <err>   (pb, rpc) fillEmptyBuffer; "~" = absent
 //   PT <payload-hex> [x]               (pb, rpc) RpcMessage::ParseFromArray on the payload
 //   AD <spec>                          ProtobufCodecLite::checksum
+//   D <chunk-spec>                     kinds conn / hsrv: the chunk is written to the peer end of a socketpair and
+//                                      the REAL TcpConnection::handleRead is called: Buffer::readFd into inputBuffer_,
+//                                      then the message callback = RawCodec::onMessage with the DEFAULT error
+//                                      callback (conn) / HttpServer::onMessage with demoCallback (hsrv)
+//   RESP <code> <msg> <close> <body> <k=v,...|->   HttpResponse::appendToBuffer into a real Buffer
 //   end
 // The error callback records the code and marks the stream abandoned (what the default
 // callback's conn->shutdown() means for the stream); after that chunks are still appended to
@@ -27,13 +32,26 @@
 #include <functional>
 #include <zlib.h>
 
+#include <sys/socket.h>
+#include <unistd.h>
+#include <fcntl.h>
+#include <errno.h>
+#include <boost/any.hpp>
+
+#include "muduo/base/Logging.h"
 #include "muduo/net/Buffer.h"
 #include "muduo/net/protobuf/ProtobufCodecLite.h"
 #include "muduo/net/protorpc/RpcCodec.h"
 #include "muduo/net/protorpc/rpc.pb.h"
 #define private public
 #include "muduo/net/http/HttpContext.h"
+#include "muduo/net/http/HttpServer.h"
+#include "muduo/net/TcpConnection.h"
 #undef private
+#include "muduo/net/http/HttpRequest.h"
+#include "muduo/net/http/HttpResponse.h"
+#include "muduo/net/EventLoop.h"
+#include "muduo/net/InetAddress.h"
 #include "common.h"
 
 using namespace muduo;
@@ -84,13 +102,27 @@ static void onRawMessage(const TcpConnectionPtr&, const MessagePtr& m, Timestamp
 {
   g_events.push_back("msg:" + hexOrDash(static_cast<const RpcMessage&>(*m).request()));
 }
+// the known fields of an RpcMessage, re-serialised (unknown fields that protobuf keeps are left out:
+// the model's message type has the seven fields of rpc.proto only)
+static string canon(const RpcMessage& m)
+{
+  RpcMessage c;
+  if (m.has_type()) c.set_type(m.type());
+  if (m.has_id()) c.set_id(m.id());
+  if (m.has_service()) c.set_service(m.service());
+  if (m.has_method()) c.set_method(m.method());
+  if (m.has_request()) c.set_request(m.request());
+  if (m.has_response()) c.set_response(m.response());
+  if (m.has_error()) c.set_error(m.error());
+  return c.SerializeAsString();
+}
 static void onPbMessage(const TcpConnectionPtr&, const MessagePtr& m, Timestamp)
 {
-  g_events.push_back("msg:" + hexOrDash(m->SerializeAsString()));
+  g_events.push_back("msg:" + hexOrDash(canon(static_cast<const RpcMessage&>(*m))));
 }
 static void onRpcMessage(const TcpConnectionPtr&, const RpcMessagePtr& m, Timestamp)
 {
-  g_events.push_back("msg:" + hexOrDash(m->SerializeAsString()));
+  g_events.push_back("msg:" + hexOrDash(canon(*m)));
 }
 static void onError(const TcpConnectionPtr&, Buffer*, Timestamp, ProtobufCodecLite::ErrorCode e)
 {
@@ -121,8 +153,110 @@ static void fillRpc(RpcMessage* m, const std::vector<string>& w)
   if (w[7] != "~") m->set_error(static_cast<ErrorCode>(atoi(w[7].c_str())));
 }
 
+// ---- a real TcpConnection on a socketpair, driven from this thread ------------------------------
+static EventLoop* g_loop = NULL;
+static void noClose(const TcpConnectionPtr&) {}
+struct RealConn
+{
+  TcpConnectionPtr conn;
+  int peer;
+  RealConn() : peer(-1) {}
+  void open()
+  {
+    int fds[2];
+    if (::socketpair(AF_UNIX, SOCK_STREAM | SOCK_NONBLOCK | SOCK_CLOEXEC, 0, fds) != 0) { perror("socketpair"); exit(3); }
+    peer = fds[1];
+    conn.reset(new TcpConnection(g_loop, "c18", fds[0], InetAddress(1), InetAddress(2)));
+    conn->setConnectionCallback(defaultConnectionCallback);
+    conn->setMessageCallback(defaultMessageCallback);
+    conn->setCloseCallback(noClose);
+    conn->connectEstablished();
+  }
+  void close()
+  {
+    if (conn)
+    {
+      conn->connectDestroyed();
+      conn.reset();
+    }
+    if (peer >= 0) { ::close(peer); peer = -1; }
+  }
+  // what the peer can read now; eof = the write side of the connection was shut down
+  string drainPeer(bool* eof)
+  {
+    string out;
+    char tmp[65536];
+    *eof = false;
+    for (;;)
+    {
+      ssize_t n = ::read(peer, tmp, sizeof tmp);
+      if (n > 0) out.append(tmp, static_cast<size_t>(n));
+      else { if (n == 0) *eof = true; break; }
+    }
+    return out;
+  }
+  void deliver(const string& d)
+  {
+    size_t off = 0;
+    while (off < d.size())
+    {
+      ssize_t n = ::write(peer, d.data() + off, d.size() - off);
+      if (n <= 0) { perror("socketpair write"); exit(3); }
+      off += static_cast<size_t>(n);
+    }
+    conn->handleRead(Timestamp::now());      // readFd into inputBuffer_, then messageCallback_
+  }
+};
+
+static void logSink(const char* msg, int len)
+{
+  string l(msg, static_cast<size_t>(len));
+  size_t p = l.find("defaultErrorCallback - ");
+  if (p != string::npos)
+  {
+    size_t a = p + strlen("defaultErrorCallback - ");
+    size_t b = l.find_first_of(" \n", a);
+    g_events.push_back("err:" + l.substr(a, b == string::npos ? string::npos : b - a));
+  }
+}
+static void logFlush() {}
+
+// the HTTP callback of the harness = C18_HttpSrvModel.demo_callback
+static void demoCallback(const HttpRequest& req, HttpResponse* resp)
+{
+  const string& path = req.path();
+  char vb[16];
+  snprintf(vb, sizeof vb, "%d", static_cast<int>(req.getVersion()));
+  string hs;
+  for (std::map<string, string>::const_iterator it = req.headers().begin(); it != req.headers().end(); ++it)
+  {
+    if (!hs.empty()) hs += ",";
+    hs += hexOrDash(it->first) + "=" + hexOrDash(it->second);
+  }
+  if (hs.empty()) hs = "-";
+  g_events.push_back(string("req:") + req.methodString() + ":" + vb + ":" + hexOrDash(path) + ":" + hexOrDash(req.query()) + ":" + hs);
+  if (path.compare(0, 3, "/nf") == 0 && path.size() >= 3)
+  {
+    resp->setStatusCode(HttpResponse::k404NotFound);
+    resp->setStatusMessage("Not Found");
+    resp->setCloseConnection(true);
+    return;
+  }
+  resp->setStatusCode(HttpResponse::k200Ok);
+  resp->setStatusMessage("OK");
+  if (path == "/close") resp->setCloseConnection(true);
+  if (!req.query().empty()) resp->addHeader("A-Query", req.query());
+  resp->addHeader("X-Method", req.methodString());
+  resp->setBody(path);
+}
+
 int main()
 {
+  g_loop = new EventLoop;
+  muduo::Logger::setOutput(logSink);
+  muduo::Logger::setFlush(logFlush);
+  std::unique_ptr<HttpServer> hsrv;
+  RealConn rc;
   std::unique_ptr<Buffer> buf(new Buffer);
   std::unique_ptr<ProtobufCodecLite> lite;
   std::unique_ptr<RpcCodec> rpc;
@@ -137,6 +271,7 @@ int main()
     {
       g_kind = w[2];
       string tag = w.size() > 3 ? spec2(w[3]) : string();
+      rc.close();
       buf.reset(new Buffer);
       lite.reset();
       rpc.reset();
@@ -149,6 +284,25 @@ int main()
                                          ProtobufCodecLite::RawMessageCallback(), onError));
       else if (g_kind == "rpc") rpc.reset(new RpcCodec(onRpcMessage, ProtobufCodecLite::RawMessageCallback(), onError));
       else if (g_kind == "http") http.reset(new HttpContext);
+      else if (g_kind == "conn")
+      {
+        lite.reset(new RawCodec(tag, onRawMessage, ProtobufCodecLite::defaultErrorCallback));
+        rc.open();
+        rc.conn->setMessageCallback(std::bind(&ProtobufCodecLite::onMessage, lite.get(),
+                                              std::placeholders::_1, std::placeholders::_2, std::placeholders::_3));
+      }
+      else if (g_kind == "hsrv")
+      {
+        if (!hsrv)
+        {
+          hsrv.reset(new HttpServer(g_loop, InetAddress(static_cast<uint16_t>(0)), "c18http"));
+          hsrv->setHttpCallback(demoCallback);
+        }
+        rc.open();
+        hsrv->onConnection(rc.conn);          // conn->setContext(HttpContext())
+        rc.conn->setMessageCallback(std::bind(&HttpServer::onMessage, hsrv.get(),
+                                              std::placeholders::_1, std::placeholders::_2, std::placeholders::_3));
+      }
       printf("case %s %s\n", w[1].c_str(), g_kind.c_str());
     }
     else if (k == "end") { printf("end\n"); }
@@ -193,6 +347,49 @@ int main()
       }
       printf("F %s r=%zu ab=%d\n", joinEvents().c_str(), buf->readableBytes(), g_abandoned ? 1 : 0);
     }
+    else if (k == "D")
+    {
+      string d = spec2(w[1]);
+      g_events.clear();
+      if (d.empty()) { printf("D skipped\n"); fflush(stdout); continue; }
+      rc.deliver(d);
+      bool eof = false;
+      string sent = rc.drainPeer(&eof);
+      if (g_kind == "conn")
+        printf("D %s r=%zu conn=%d sh=%d\n", joinEvents().c_str(), rc.conn->inputBuffer()->readableBytes(),
+               rc.conn->connected() ? 1 : 0, eof ? 1 : 0);
+      else
+      {
+        HttpContext* ctx = boost::any_cast<HttpContext>(rc.conn->getMutableContext());
+        string ss = hexOrDash(sent);
+        printf("D %s sent=%s r=%zu conn=%d sh=%d st=%d\n", joinEvents().c_str(), ss.c_str(),
+               rc.conn->inputBuffer()->readableBytes(), rc.conn->connected() ? 1 : 0, eof ? 1 : 0,
+               static_cast<int>(ctx->state_));
+      }
+    }
+    else if (k == "RESP")
+    {
+      HttpResponse resp(w[3] == "1");
+      resp.setStatusCode(static_cast<HttpResponse::HttpStatusCode>(atoi(w[1].c_str())));
+      resp.setStatusMessage(spec2(w[2]));
+      resp.setBody(spec2(w[4]));
+      if (w[5] != "-")
+      {
+        size_t pos = 0;
+        while (pos <= w[5].size())
+        {
+          size_t c = w[5].find(',', pos);
+          string kv = w[5].substr(pos, c == string::npos ? string::npos : c - pos);
+          size_t e = kv.find('=');
+          resp.addHeader(spec2(kv.substr(0, e)), spec2(kv.substr(e + 1)));
+          if (c == string::npos) break;
+          pos = c + 1;
+        }
+      }
+      Buffer out;
+      resp.appendToBuffer(&out);
+      printf("RESP %s\n", vh::hexOf(string(out.peek(), out.readableBytes())).c_str());
+    }
     else if (k == "E")
     {
       Buffer out;
@@ -210,14 +407,15 @@ int main()
         if (rpc) rpc->fillEmptyBuffer(&out, m);
         else lite->fillEmptyBuffer(&out, m);
       }
-      printf("E %s\n", vh::hexOf(string(out.peek(), out.readableBytes())).c_str());
+      printf("E %s p=%zu w=%zu\n", vh::hexOf(string(out.peek(), out.readableBytes())).c_str(),
+             out.prependableBytes(), out.writableBytes());
     }
     else if (k == "PT")
     {
       string p = spec2(w[1]);
       RpcMessage m;
       if (m.ParseFromArray(p.data(), static_cast<int>(p.size())))
-        printf("PT ok:%s\n", hexOrDash(m.SerializeAsString()).c_str());
+        printf("PT ok:%s\n", hexOrDash(canon(m)).c_str());
       else
         printf("PT fail\n");
     }
@@ -232,5 +430,6 @@ int main()
     else { fprintf(stderr, "bad op: %s\n", line.c_str()); return 2; }
     fflush(stdout);
   }
+  rc.close();
   return 0;
 }
